@@ -1846,3 +1846,29 @@ def c19_d(ctx):
                     yield ok("C19-D", key, at(f), "skipped only when not acknowledged, or deferred procedure before EOF")
     if n == 0:
         raise Anchor("C19-D", "resume of the transactions")
+
+
+# ================================================================ C10-K9: a cancelled acknowledged sender waits for its answers
+@rule("C10", "C10-K9", 1, "in acknowledged mode a cancelled sender is not ended by its own send step: after the EOF(cancel) has left it stays to retransmit it and to hear the Finished PDU (shutdown in send_pdu with the phase Cancelled only in unacknowledged mode)")
+def c10_k9(ctx):
+    f = ctx.one("C10-K9", "SendTransaction::send_pdu")
+
+    def track(key):
+        return key[0] == "val" and key[1] in ("self.config.transmission_mode", "self.send_state")
+
+    fl = Flow(ctx.prog, ctx.mods, f, track)
+    n = 0
+    badw = None
+    where = None
+    for f2, b, t, d, r in call_sites([f], lambda d_, r_: (r_ or d_ or "").endswith(("SendTransaction::shutdown", "SendTransaction::abandon")), ctx.prog):
+        n += 1
+        for w in fl.at_term(b):
+            dw = dict(w)
+            ph = dw.get(("val", "self.send_state"))
+            may_cancelled = ph is None or (ph[0] and "Cancelled" in ph[1]) or (not ph[0] and "Cancelled" not in ph[1])
+            if may_cancelled and not val_in(dw, "self.config.transmission_mode", {"Unacknowledged"}):
+                badw, where = w, t["span"]["line"]
+    if badw is not None:
+        yield bad("C10-K9", "send_pdu:Cancelled->shutdown", at(f, where), "the send step ends a cancelled sender that may be in acknowledged mode (state %s): its EOF(cancel) is never retransmitted and the receiver's Finished is never answered" % world_str(badw))
+    else:
+        yield ok("C10-K9", "send_pdu:Cancelled->shutdown", at(f), {"shutdown_sites_in_send_pdu": n})
